@@ -320,7 +320,12 @@ def proposals(job, r):
                 continue
             for it in items:
                 if not it['edits']:
-                    continue
+                    # an item without additional edits claims that the class is already usable in the document; for a class
+                    # that only library modules export and the document neither imports nor defines, that claim is judged too
+                    lab = it['label']
+                    usable = re.search(r'import\s*\{[^}]*\b%s\b[^}]*\}|\b(class|interface)\s+%s\b' % (re.escape(lab), re.escape(lab)), job['text'])
+                    if usable or not exporters(lab):
+                        continue
                 # the client replaces the word under the cursor by insert_text and applies the additional edits
                 p = {'kind': 'completion', 'at': u['loc'], 'title': it['detail'], 'cls': it['label'], 'module': None,
                      'edits': it['edits'], 'main': {'range': u['loc'], 'text': it['insert_text']}}
@@ -442,6 +447,9 @@ WITNESSES = [
     ('semicolon-line-comment', 'import { Bar } from Lib.A; // note\nclass Main {\n  function main(): int = Foo.make()\n}\n'),
     ('no-imports', 'class Main {\n  function main(): int = Foo.make()\n}\n'),
     ('no-imports-header-comment', '// header\nclass Main {\n  function main(): int = Foo.make()\n}\n'),
+    # an import cut short in front of the class (one syntax error before and after; the edit must not land inside the class header)
+    ('truncated-import', 'import { Bar } from \nclass Main {\n  function main(): int = Foo.make()\n}\n'),
+    ('truncated-import-list', 'import { Bar, \nclass Main {\n  function main(): int = Foo.make()\n}\n'),
 ]
 
 
@@ -547,6 +555,14 @@ def replay_input(job, prop=None):
     return d
 
 
+KLASS_TRUNC = 'C16-import-list-cut-short'
+
+
+def import_list_cut_short(text):
+    """the document has an `import {` whose member list is not closed before the next declaration starts"""
+    return re.search(r'import\s*\{[^}]*?\b(class|interface|import|private)\b', text) is not None
+
+
 def module_of_title(p):
     m = re.search(r'from `([^`]*)`', p.get('title') or '')
     if m:
@@ -568,7 +584,8 @@ def report(ck, failing):
         ck.property_failure(what, replay_input(job, p),
                             expected='document that parses, imports %s, no CannotResolveClass for it, same toplevels' % p['cls'],
                             observed={'document_before': job['text'], 'document_after': new_text},
-                            how=HOW, klass=KLASS if nosemi else KLASS_PATH if unimportable_path(p.get('module') or module_of_title(p)) else None)
+                            how=HOW, klass=KLASS_TRUNC if import_list_cut_short(job['text']) else KLASS if nosemi
+                            else KLASS_PATH if unimportable_path(p.get('module') or module_of_title(p)) else None)
 
 
 def encoding_probe(ck):
